@@ -2,6 +2,9 @@
   Known-finding regions of property C09 as decidable predicates, shared by the driver (which names
   the region a case lies in) and by Proofs/C09.lean (whose `_partial` theorems exclude exactly these
   regions), plus the dispatch of the specification by method.
+  Regions left: C09.mix.level, C09.tuple.hashCollision, C09.tuple.hashZero. The former hazard regions
+  C09.{put,insert,concat,set}.nullDeref (named by the driver from a `hazard` outcome of the model) are
+  repaired (9e8652f): the model has no hazard outcome there any more, so no region exists for them.
 -/
 import BlocV.Model.Members
 import BlocV.Spec.Containers
@@ -26,7 +29,9 @@ open BlocV
 
 /-- C09.mix.level — the "type mixing" branch of put/insert/concat does not look at the level of the
 table: an integer/decimal table of two or more dimensions accepts a scalar of the other numeric type
-or an untyped null and stores a level-0 element. -/
+(a typed NULL of it included: since the repair 9e8652f that cell stores a level-0 null integer / decimal
+instead of dereferencing a null pointer, e.g. `Ti2[].insert(0, num())` = `Ti2[N:i0]`) or an untyped null
+and stores a level-0 element. -/
 def levelBug (t : Ty) (a : Val) : Bool :=
   t.level ≥ 2 && a.type.level == 0 &&
     ((t.major == .int && (a.type.major == .num || a.type.major == .none)) ||
